@@ -46,10 +46,10 @@ Definition pool_acquirers_names_ref : list string :=
   ["newSolutionStopGenerator/solutionStopGenerator"].
 
 Definition seqgen_channel_shared_ref : list (string * string) :=
-  [("ch", "chan"); ("maxSequences", "plain"); ("planUnit", "plain"); ("solution", "plain")].
+  [("ch", "chan"); ("sequences", "plain")].
 
 Definition seqgen_channel_body_ref : list sk :=
-  [(SRead "planUnit"); (SRead "solution"); (SRead "planUnit"); (SGo [(SDefer [SClose "ch"]); (SIf [(SSend "ch"); (SReturn); (SRead "solution"); (SCall "Random"); (SRead "maxSequences")] [])]); (SReturn)].
+  [(SIf [(SRead "sequences"); (SWrite "sequences"); (SCall "Random")] []); (SGo [(SDefer [SClose "ch"]); (SRead "sequences"); (SFor [(SSelect [("comm", [SRecv "quit"; (SReturn)]); ("comm", [SSend "ch"])])])]); (SReturn)].
 
 Definition seqgen_rec_shared_ref : list (string * string) :=
   [].
